@@ -2,8 +2,11 @@
 """Prints the prompt given to an independent mutation-seeding agent for one property."""
 import json, sys
 pid = sys.argv[1]
+rnd = sys.argv[2] if len(sys.argv) > 2 else '1'
+WT = f'{WT}' if rnd == '1' else f'/tmp/seed{rnd}-{pid}'
+VA, VB = ('A', 'B') if rnd == '1' else ('C', 'D')
 p = [json.loads(l) for l in open('/verif/properties.jsonl') if json.loads(l)['id'] == pid][0]
-print(f"""You are a software engineer reviewing the Go repository google/gce-tcb-verifier (tools that compute SEV-SNP/TDX launch measurements of OVMF firmware, sign them as GCE launch endorsements, and verify endorsements against attestations). You have your own scratch git worktree of it at /tmp/seed-{pid} (a detached checkout; edit it freely). Work ONLY inside /tmp/seed-{pid} and /tmp/seed-{pid}-out; do not read or write /repo, /verif or any other /tmp directory.
+print(f"""You are a software engineer reviewing the Go repository google/gce-tcb-verifier (tools that compute SEV-SNP/TDX launch measurements of OVMF firmware, sign them as GCE launch endorsements, and verify endorsements against attestations). You have your own scratch git worktree of it at {WT} (a detached checkout; edit it freely). Work ONLY inside {WT} and {WT}-out; do not read or write /repo, /verif or any other /tmp directory.
 
 A semantic property the repository is supposed to satisfy:
 
@@ -11,11 +14,11 @@ A semantic property the repository is supposed to satisfy:
   Statement: {p['statement']}
   Quantified over: {p['quantifier']['text']}
 
-YOUR TASK: produce TWO different, realistic changes to the repository's non-test Go source (call them A and B; each independent, each applied to the unchanged tree) such that, with the change applied:
-  1. the code still compiles and the repository's EXISTING test suite still passes, unedited (run it: `cd /tmp/seed-{pid} && GOPROXY=off GOSUMDB=off GOTOOLCHAIN=local go build ./... && GOPROXY=off GOSUMDB=off GOTOOLCHAIN=local go test -vet=off -count=1 ./... && cd gcetcbendorsement && GOPROXY=off GOSUMDB=off GOTOOLCHAIN=local go test -vet=off -count=1 ./...` — there is no network; do not set GOFLAGS=-mod=mod in the repo, it uses a go.work workspace; NOTE: testing/nonprod/localkm TestLoadKeys/bad_key_in_dir fails on the UNCHANGED tree because tests run as root here — ignore that one failure and run the two module suites separately rather than with &&);
-  2. the property above is VIOLATED — not for every use, but for something specific: a particular input or boundary value, a multi-step sequence of operations, an unusual configuration, a fault at a particular point, a particular interleaving, or two cooperating code sites that each look fine alone. Prefer subtle changes that a code reviewer could plausibly let through (an off-by-one, a dropped or reordered check, a wrong map key, a condition that is right for the common case only, an optimisation that skips work, a refactoring slip), NOT changes that ordinary use or the existing tests would expose at once, and not changes outside the behaviour the property talks about. A and B should touch different mechanisms (different functions or different clauses of the property).
+YOUR TASK: produce TWO different, realistic changes to the repository's non-test Go source (call them {VA} and {VB}; each independent, each applied to the unchanged tree) such that, with the change applied:
+  1. the code still compiles and the repository's EXISTING test suite still passes, unedited (run it: `cd {WT} && GOPROXY=off GOSUMDB=off GOTOOLCHAIN=local go build ./... && GOPROXY=off GOSUMDB=off GOTOOLCHAIN=local go test -vet=off -count=1 ./... && cd gcetcbendorsement && GOPROXY=off GOSUMDB=off GOTOOLCHAIN=local go test -vet=off -count=1 ./...` — there is no network; do not set GOFLAGS=-mod=mod in the repo, it uses a go.work workspace; NOTE: testing/nonprod/localkm TestLoadKeys/bad_key_in_dir fails on the UNCHANGED tree because tests run as root here — ignore that one failure and run the two module suites separately rather than with &&);
+  2. the property above is VIOLATED — not for every use, but for something specific: a particular input or boundary value, a multi-step sequence of operations, an unusual configuration, a fault at a particular point, a particular interleaving, or two cooperating code sites that each look fine alone. Prefer subtle changes that a code reviewer could plausibly let through (an off-by-one, a dropped or reordered check, a wrong map key, a condition that is right for the common case only, an optimisation that skips work, a refactoring slip), NOT changes that ordinary use or the existing tests would expose at once, and not changes outside the behaviour the property talks about. {VA} and {VB} should touch different mechanisms (different functions or different clauses of the property).
   3. you have a DEMONSTRATION for each: a new Go test file (or small program) that FAILS with the change and PASSES on the unchanged tree, showing the violation concretely against the real code. Put the demonstration in a new file so it does not edit existing tests.
 
-Read the relevant code first (start from README.md and the packages the property is about), then make change A, run the full existing suite, run your demonstration with and without the change, save the artefacts, `git -C /tmp/seed-{pid} checkout -- . && git -C /tmp/seed-{pid} clean -fd` to restore, and repeat for B.
+Read the relevant code first (start from README.md and the packages the property is about), then make change {VA}, run the full existing suite, run your demonstration with and without the change, save the artefacts, `git -C {WT} checkout -- . && git -C {WT} clean -fd` to restore, and repeat for {VB}.
 
-DELIVER in /tmp/seed-{pid}-out/A and /tmp/seed-{pid}-out/B (create them): `patch.diff` (output of `git diff` for the source change only, applying cleanly with `git apply` at the repository root on the unchanged tree), the demonstration file(s) with a first-line comment saying at which repository-relative path to place them and the exact command to run, and `notes.md`: which clause of the property the change breaks, what exactly is needed for the violation to manifest (the specific input / sequence / configuration), the output of the demonstration with and without the change, and confirmation that the existing suite passed with the change (paste the `ok` lines). Leave the worktree restored to the unchanged tree when done. Your final message: a short summary of A and B.""")
+DELIVER in {WT}-out/{VA} and {WT}-out/{VB} (create them): `patch.diff` (output of `git diff` for the source change only, applying cleanly with `git apply` at the repository root on the unchanged tree), the demonstration file(s) with a first-line comment saying at which repository-relative path to place them and the exact command to run, and `notes.md`: which clause of the property the change breaks, what exactly is needed for the violation to manifest (the specific input / sequence / configuration), the output of the demonstration with and without the change, and confirmation that the existing suite passed with the change (paste the `ok` lines). Leave the worktree restored to the unchanged tree when done. Your final message: a short summary of {VA} and {VB}.""")
